@@ -17,7 +17,7 @@ META = dict(
     functions=['scared.distinguishers.base:DistinguisherMixin.update/compute', 'scared.distinguishers.cpa:*', 'scared.distinguishers.dpa:*', 'scared.distinguishers.partitioned:*',
                'scared.distinguishers.mia:*', 'scared.distinguishers.template:*', 'scared.ttest:TTestThreadAccumulator.update/compute/_update_core'],
     bounds=dict(quick='n = 3 traces, every ordered partition into consecutive non-empty batches (4 compositions), with and without compute() after every update, compute() twice at the end; '
-                      '10 distinguishers; trace values symbolic (all reals), class labels concrete patterns including undeclared values; precision float64 and float32',
+                      '10 distinguishers; trace values symbolic (all reals), class labels concrete patterns including undeclared values; precision float64 (float32 as well for CPA, ANOVA, template build, t-test; for all in the thorough tier)',
                 thorough='n = 4 (8 compositions)'),
     assumptions=['floats are exact reals; equality of states / results is a polynomial (rational) identity decided by z3', 'MIA: samples symbolic, bin membership explored by forking'],
     outside=['batches of more than 4 traces', 'rounding at the requested precision'],
@@ -38,6 +38,8 @@ def jobs(tier, seed):
         for p in ('float64', 'float32'):
             if d in ('MIA',) and p == 'float32':
                 continue
+            if tier == 'quick' and p == 'float32' and d not in ('CPA', 'ANOVA', 'TTest', 'TemplateBuild'):
+                continue          # quick: the second precision only where the dtype handling differs per class
             for variant in range(2 if d in ('ANOVA', 'NICV', 'SNR-auto', 'TemplateBuild') else 1):
                 js.append(dict(name=f'{d}-{p}-n{n}-v{variant}', dist=d, p=p, n=n, variant=variant))
     return js
